@@ -74,6 +74,14 @@ func rewriteClasses(orig, variant string) []string {
 // checkVariants: every variant the transformer produces is accepted and behaves like the original.
 func checkVariants(c Case) *pk.Failure {
 	orig := px.Pool().Exec(c.Request("vm"))
+	if orig.Hang {
+		// The ORIGINAL does not finish within the time budget (seen once in a thorough soak: a generated program
+		// outside the reference model whose string quadruples per loop iteration). Nothing can be compared with
+		// it; whether a program may run that long is not this property's subject.
+		pk.Class("original-does-not-finish-within-the-budget")
+		pk.Inconclusive()
+		return nil
+	}
 	if f := px.SandboxFailure("variants", orig); f != nil {
 		f.Sig = "original " + f.Sig
 		f.Msg = px.ProgText(c.ProgCase) + "\n" + f.Msg
